@@ -1700,12 +1700,12 @@ def c14(res):
         work = os.path.join(os.path.dirname(sb.base), "client")
         try:
             for direction in ("download", "upload"):
-                for (nb, w) in ((65537, 64), (65540, 1000), (700, 65535)):
+                for (nb, w) in ((65537, 64), (65540, 150), (700, 65535)):     # (bursts of more than ~170 small datagrams overrun a socket buffer)
                     content = X.make_file(nb, 8, 5)
                     name = "big_%d_%d.bin" % (nb, w)
                     if direction == "download":
                         open(os.path.join(sb.send, name), "wb").write(content)
-                    se, ce, fin = IO.one_run(srv, sb, work, direction, name, content, 8, w, 1, "big-%s-%d-%d" % (direction, nb, w))
+                    se, ce, fin = IO.one_run(srv, sb, work, direction, name, content, 8, w, 1, "big-%s-%d-%d" % (direction, nb, w), run_timeout=300)
                     xfer_events += se + ce
                     finals.append(fin)
         finally:
